@@ -119,7 +119,9 @@ def mode_fn(cx, name, spec):
     for b, i, st in fn.stmts():
         if b in loop and st['k'] == 'assign' and not st['lhs']['p'] and fn.locals[st['lhs']['l']].get('name') == 'vec_buf':
             got.append(('assign', K.c(norm(P.rvalue(st['rv'], b, i, 0)))))
-    cx.add('I-MODES', name + '/feedback', got == [(kind, want)], 'feedback register update per block is %s(%s) (got %s)' % (kind, want, got), fn.loc())
+    COPY = ('clone_from_slice', 'copy_from_slice', 'assign')      # how the register receives the value does not matter
+    same_fb = got == [(kind, want)] or (kind in COPY and len(got) == 1 and got[0][0] in COPY and got[0][1] == want)
+    cx.add('I-MODES', name + '/feedback', same_fb, 'feedback register update per block is %s(%s) (got %s)' % (kind, want, got), fn.loc())
     # tail for stream modes: out.push(data[blk*16+i] ^ E(BUF)[i]) for i in 0..len - blk*16
     if spec['tail']:
         tl = [b for b in FR.calls_of(fn, 'next') if FR.arg_canon(fn, P, cn, b, 0) == 'into_iter(Range::Range{0, SubWithOverflow(len($data), MulWithOverflow(Div(len($data), 16), 16).0).0})']
@@ -200,7 +202,10 @@ def run(cx):
         rem = 'Rem(len($data), 16)'
         vals = sorted(outs.values())
         want = sorted(['E(xor(BUF, PAD(16)))', 'E(xor(BUF, PAD(SubWithOverflow(16, (%s as u8)).0)))' % rem])
-        cx.add('I-CBC-PAD', 'cbc_encrypt', vals == want, 'final block is E(register xor padded tail): full 0x10 block when len%%16==0 else tail || (16-rem) x (16-rem): %s' % outs, fn.loc())
+        # one arm for every remainder: PAD(16 - rem) with the (possibly empty) tail copied over its first rem bytes is the
+        # full 0x10 block when rem == 0 (rem = len % 16 is in 0..15, so 16 - rem is in 1..16)
+        unified = vals == ['E(xor(BUF, PAD(SubWithOverflow(16, (%s as u8)).0)))' % rem]
+        cx.add('I-CBC-PAD', 'cbc_encrypt', vals == want or unified, 'final block is E(register xor padded tail): full 0x10 block when len%%16==0 else tail || (16-rem) x (16-rem): %s' % outs, fn.loc())
         cps = [b for b in FR.calls_of(fn, 'copy_from_slice') if b not in inloop]
         ok = any(FR.arg_canon(fn, P, cn, b, 0) == 'index_mut(repeat{SubWithOverflow(16, (%s as u8)).0}, RangeTo::RangeTo{%s})' % (rem, rem) and
                  FR.arg_canon(fn, P, cn, b, 1) == 'index($data, %s)' % TAILFROM for b in cps)
@@ -215,30 +220,49 @@ def run(cx):
         for conds, v in pol.items():
             if v == 'E(xor(BUF, PAD(16)))':
                 okp = any(c.startswith('Ne(%s, 0)=0' % rem) or c.startswith('Eq(%s, 0)=1' % rem) or c == 'Eq(%s, 0)=otherwise' % rem for c in conds)
+        okp = okp or unified
         cx.add('I-CBC-PAD', 'cbc_encrypt/polarity', okp, 'the full padding block is emitted exactly when len % 16 == 0: ' + str(list(pol.keys())), fn.loc())
     # ---- counter increment
     fn = cx.fn('gm_sm4::block_add_one')
     if fn is not None:
         P = Prov(fn, cx.F); cn = Canon(fn, P)
-        oa = FR.calls_of(fn, 'overflowing_add')
-        ok = len(oa) == 1 and FR.arg_canon(fn, P, cn, oa[0], 0) == '$a[SubWithOverflow(15, each(Range::Range{0, 16})).0]'
-        cx.add('I-CTR', 'block_add_one/walk', ok, 'the increment walks all 16 bytes from index 15 down to 0', fn.loc())
-        carry = FR.arg_canon(fn, P, cn, oa[0], 1) if oa else ''
-        cx.add('I-CTR', 'block_add_one/carry', carry.startswith('phi(') and '| 1)' in carry and '.1 as u8' in carry, 'the addend is 1 for the last byte and the carry-out for the bytes above: %s' % FR.short(carry, 120), fn.loc())
-        st_ok = False
-        for b, i, st in fn.stmts():
-            if st['k'] == 'assign' and st['lhs']['p'] and st['lhs']['p'][0] == 'deref' and len(st['lhs']['p']) == 2:
-                v = cn.c(norm(P.rvalue(st['rv'], b, i, 0)))
-                ie = cn.c(norm(P.local(st['lhs']['p'][1]['idx'], b, i))) if 'idx' in st['lhs']['p'][1] else ''
-                if v.startswith('overflowing_add($a[SubWithOverflow(15, each(') and v.endswith('.0') and ie == 'SubWithOverflow(15, each(Range::Range{0, 16})).0':
-                    st_ok = True
-            elif st['k'] == 'assign' and st['lhs']['p'] == ['deref']:
-                # `*byte = t` with byte the element of `a[..16].iter_mut().rev()`: the same store in index form
-                v = cn.c(norm(P.rvalue(st['rv'], b, i, 0)))
-                tgt = cn.c(norm(P.local(st['lhs']['l'], b, i)))
-                if v.startswith('overflowing_add($a[SubWithOverflow(15, each(') and v.endswith('.0') and tgt == '$a[SubWithOverflow(15, each(Range::Range{0, 16})).0]':
-                    st_ok = True
-        cx.add('I-CTR', 'block_add_one/store', st_ok, 'each byte is replaced by the wrapped sum at the same index', fn.loc())
-        # stops when no carry
-        sw = [p for _, p, _, _ in G.bool_switches(fn, P)]
-        cx.add('I-CTR', 'block_add_one/stop', any('.1' in cn.c(p.args[0]) and 'overflowing_add' in cn.c(p.args[0]) for p in sw if p.args), 'propagation stops at the first byte without carry-out', fn.loc())
+        # the 128-bit big-endian counter: bytes 15, 14, .. 0 in that order; each visited byte becomes byte + carry-in (wrapping)
+        # with carry-in 1 (the loop goes on only after a wrap, so the carry variable is 1 whenever it is read); the walk goes on
+        # exactly when the addition wrapped (overflow flag, or the new byte is 0 for an increment by one)
+        from .. import rules_i as _I
+        Pc = Prov(fn, cx.F, cut_loops=True); cc = Canon(fn, Pc)
+        IDX = ('SubWithOverflow(15, each(Range::Range{0, 16})).0', 'each(rev(Range::Range{0, 16}))')
+        sts = _I.stores(fn, cx.F, 'a', through_deref=True) + _I.stores(fn, cx.F, 'a')
+        cx.add('I-CTR', 'block_add_one/walk', len(sts) == 1 and sts[0][0] in IDX, 'the increment walks all 16 bytes from index 15 down to 0 (stores: %s)' % [x[0] for x in sts][:4], fn.loc())
+        idx = sts[0][0] if len(sts) == 1 else IDX[0]
+        BYTE = '$a[%s]' % idx
+        val = sts[0][1] if len(sts) == 1 else ''
+        import re as _re
+        m_o = _re.match(r'^overflowing_add\(%s, (.*)\)\.0$' % _re.escape(BYTE), val)
+        m_w = _re.match(r'^wrapping_add\(%s, 1\)$' % _re.escape(BYTE), val)
+        addend = m_o.group(1) if m_o else ('1' if m_w else '')
+        # the carry variable: initialised to 1, reassigned only from the overflow flag on the edge where the loop goes on
+        carry_ok = addend == '1'
+        if addend.startswith('var:') and addend.endswith('@in'):
+            cl = [i_ for i_, l_ in enumerate(fn.locals) if l_.get('name') == addend[4:-3]]
+            if len(cl) == 1:
+                defs = [cc.c(norm(Pc.rvalue(st['rv'], b_, i_, 0))) for b_, i_, st in fn.stmts() if st['k'] == 'assign' and not st['lhs']['p'] and st['lhs']['l'] == cl[0]]
+                carry_ok = sorted(set(defs)) == sorted({'1', '(overflowing_add(%s, %s).1 as u8)' % (BYTE, addend)})
+        cx.add('I-CTR', 'block_add_one/carry', carry_ok, 'the addend is 1 for the last byte and the carry-out (which is 1 whenever the walk goes on) for the bytes above: %s' % FR.short(addend, 120), fn.loc())
+        cx.add('I-CTR', 'block_add_one/store', bool(m_o or m_w), 'each byte is replaced by the wrapped sum at the same index: %s' % FR.short(val, 120), fn.loc())
+        stop_ok = False
+        loopb = set().union(*[c_ for _, c_ in fn.natural_loops()]) if fn.natural_loops() else set()
+        for b_, p_, te_, fe_ in G.bool_switches(fn, Pc):
+            if not p_.args or b_ not in loopb:
+                continue
+            t0 = cc.c(p_.args[0])
+            if m_o and t0 == 'overflowing_add(%s, %s).1' % (BYTE, addend) and p_.kind == 'unknown':
+                goes_on = fe_ if p_.neg else te_          # flag set -> next byte
+            elif (m_o or m_w) and p_.kind == 'eq' and sorted(cc.c(a_) for a_ in p_.args) == sorted(['0', val if val.startswith('wrapping_add') else '%s' % val]):
+                goes_on = fe_ if p_.neg else te_          # new byte == 0 -> next byte
+            elif m_w and p_.kind == 'eq' and sorted(cc.c(a_) for a_ in p_.args) == sorted(['0', BYTE]):
+                goes_on = fe_ if p_.neg else te_          # the byte just written is read back
+            else:
+                continue
+            stop_ok = all(tgt in loopb for _, tgt in goes_on) and all(tgt not in loopb or fn.blocks[tgt]['term']['k'] == 'return' for _, tgt in (te_ if goes_on is fe_ else fe_))
+        cx.add('I-CTR', 'block_add_one/stop', stop_ok, 'propagation goes on exactly when the byte wrapped and stops at the first byte without carry-out', fn.loc())
